@@ -42,6 +42,18 @@ CHECKS = {
             "Decides: termination of every sorter loop for every ranker; no invented values; the collections sort their live backing array with the caller's ranker; the merge step is canonical (lesser head taken, cursors consistent, in bounds); the driver merges adjacent, tiling runs between two ping-pong arrays within 0<=left<=middle<=right<=length on all integers; reverse swaps i with len-1-i up to len/2; shuffle only swaps. The global induction over passes is not mechanised.",
             "go/types, go/cfg of x/tools v0.29.0; canonical merge-sort step spec in checker/c09.go",
             "DESIGN.md 5/C09"),
+    "C10": ("static analysis: abstract interpretation of the formatter's leaf functions over regular languages (DFA products for inclusion and prefix shadowing against the scanner's token automata, rational transductions for Cut/TrimLeft/slicing, sign refinement) (LANG); converter-pair and name tables; reset-or-restore and depth-balance rules (EFFECT/PATH); call-graph SCCs after guarded-edge removal",
+            "Decides that everything an intrinsic leaf can print is scanned back as one token of the intended type (for all values, relative to trusted regular models of strconv), that writer and reader use inverse conversions and one set of type names, that FormatValue's result depends on its argument alone, and reports recursion cycles without depth accounting. Value equality of the round trip is not decided.",
+            "go/types, go/cfg of x/tools v0.29.0; regular-language models of strconv producers in checker/cdcn.go (trusted over-approximations)",
+            "DESIGN.md 5/C10"),
+    "C11": ("static analysis: language equality between the grammar's token definitions (Syntax.cdsn) and the scanner's patterns, prefix-shadow products for all ordered token pairs (LANG); rule/alternative/context tables; error-consumption rule over go/cfg paths; scanner/parser state separation (EFFECT)",
+            "Decides: grammar tokens = scanner tokens (8 definitions, as languages), the scan order cannot steal a token (66 pairs), the parser's documented rules, intrinsic alternatives and type contexts agree with the grammar and build the stated kind, no conversion error is dropped, scanner and parser share only the queue. That the recursive descent accepts exactly the rule language is not decided.",
+            "go/types, go/cfg of x/tools v0.29.0; CDSN intrinsics (CONTROL, ESCAPE, ...) are undefined in this repository, definitions using them are skipped",
+            "DESIGN.md 5/C11"),
+    "C12": ("static analysis: definite-assignment and must-pass path queries on go/cfg (PATH), typed assertion rule, epsilon-freeness of token automata (LANG), scan-loop form (LP), close/deferred-drain pairing for the scanner goroutine",
+            "Decides the named runtime-error sources: nil token in diagnostics, unchecked assertions on parsed data, error tokens bypassing the diagnostic, a spinning scan loop, an abandoned scanner goroutine; plus loop forms. Totality on arbitrary bytes beyond these is not decided.",
+            "go/types, go/cfg of x/tools v0.29.0",
+            "DESIGN.md 5/C12"),
     "C13": ("static analysis: octagon abstract interpretation of the stack guards and of the capacity given at construction (SYM), call-site tables for the single mutation gate and the stack end",
             "Decides: no constructor builds a stack whose capacity is below its initial size (all integers), AddValue/RemoveTop guard exactly the full/empty states before touching storage, one end (slot 0 / index 1), views delegate, storage mutated only through the three gates. LIFO over histories is not decided.",
             "go/types of x/tools v0.29.0; spec tables in checker/c13.go; relies on the list's own correctness (C01)",
